@@ -455,6 +455,7 @@ package libinjection
 
 //@ func toUpperCmp
 //@   modifies nothing
+//@   ensures  @len2 result && len(a) >= 2 && a[0] < 128 ==> len(b) >= 2
 
 //@ func searchKeyword
 //@   modifies nothing
@@ -657,3 +658,42 @@ package libinjection
 //@   ensures  wfT(tokenA) && tokenA.pos == old(tokenA.pos)
 //@   ensures  [C01 C08] @class result ==> inSigma(tokenA.category) && tokenA.category != 0
 //@   ensures  !result ==> tokenA.category == old(tokenA.category) && tokenA.len == old(tokenA.len) && aliases(tokenA.val, old(tokenA.val))
+
+//@ spec toks5wf(s *sqliState) bool = wfT(s.tokenVec[0]) && wfT(s.tokenVec[1]) && wfT(s.tokenVec[2]) && wfT(s.tokenVec[3]) && wfT(s.tokenVec[4])
+
+// ---- folding. pos = number of tokens in the window, left = tokens already final.
+// Termination of the main loop: lexicographic variant
+//   (bytes left to scan [+1 while the lexer may still deliver], window size,
+//    number of window tokens that can still trigger a "restart from 0 without shrinking" rule,
+//    6 - left, rank sum of the classes that in-place re-classification rules walk down)
+//@ spec catAt(s *sqliState, i int) int = s.tokenVec[i].category
+//@ spec inR(c int) bool = c == 'n' || c == 'k' || c == 'f' || c == 'v' || c == 'o'
+//@ spec bsAt(s *sqliState, pos int, i int) int = (i < pos && catAt(s, i) == '\\') ? 1 : 0
+//@ spec apAt(s *sqliState, pos int, i int) int = (i + 1 < pos && catAt(s, i) == 'A' && inR(catAt(s, i + 1))) ? 1 : 0
+//@ spec foldC(s *sqliState, pos int) int = bsAt(s, pos, 0) + bsAt(s, pos, 1) + bsAt(s, pos, 2) + bsAt(s, pos, 3) + bsAt(s, pos, 4) + bsAt(s, pos, 5) +
+//@      apAt(s, pos, 0) + apAt(s, pos, 1) + apAt(s, pos, 2) + apAt(s, pos, 3) + apAt(s, pos, 4)
+//@ spec rankC(c int) int = c == 'k' ? 3 : ((c == 'n' || c == 'v' || c == 'o') ? 2 : (c == 'f' ? 1 : 0))
+//@ spec rkAt(s *sqliState, pos int, i int) int = i < pos ? rankC(catAt(s, i)) : 0
+//@ spec foldPhi(s *sqliState, pos int) int = rkAt(s, pos, 0) + rkAt(s, pos, 1) + rkAt(s, pos, 2) + rkAt(s, pos, 3) + rkAt(s, pos, 4) + rkAt(s, pos, 5)
+//@ spec foldM1(s *sqliState, more bool) int = s.length - s.pos + (more ? 1 : 0)
+//@ func (*sqliState).fold
+//@   requires wfS(s) && statsOK(s) && 0 <= s.statsFolds && s.statsFolds <= s.statsTokens
+//@   modifies s.pos, s.current, s.statsTokens, s.statsFolds, s.statsCommentDDX, s.statsCommentHash, s.tokenVec[*].*
+//@   ensures  wfS(s) && statsOK(s) && aliases(s.input, old(s.input)) && s.length == old(s.length) && s.flags == old(s.flags)
+//@   ensures  [C01 C08] @count 0 <= result && result <= 6 && (result == 6 ==> s.tokenVec[5].category == sqliTokenTypeEvil)
+//@   loop 1 invariant wfS(s) && statsOK(s) && s.current == tv(s, 0) && aliases(s.input, old(s.input)) && s.length == old(s.length) && s.flags == old(s.flags) &&
+//@                    s.statsFolds == old(s.statsFolds) && s.statsFolds <= s.statsTokens && pos == 0 && left == 0 && lastComment.category == 0
+//@   loop 1 decreases s.length - s.pos + (more ? 1 : 0)
+//@   loop 2 invariant wfS(s) && statsOK(s) && aliases(s.input, old(s.input)) && s.length == old(s.length) && s.flags == old(s.flags) &&
+//@                    0 <= left && left <= pos && pos <= 6 && wfT(lastComment) && 0 <= s.statsFolds && s.statsFolds + pos <= s.statsTokens
+//@   loop 2 decreases foldM1(s, more), pos, foldC(s, pos), 6 - left, foldPhi(s, pos)
+//@   loop 3 invariant wfS(s) && statsOK(s) && aliases(s.input, old(s.input)) && s.length == old(s.length) && s.flags == old(s.flags) &&
+//@                    0 <= left && left <= pos && pos <= 6 && left < 5 && wfT(lastComment) && 0 <= s.statsFolds && s.statsFolds + pos <= s.statsTokens
+//@   loop 3 invariant (foldM1(s, more) < outer(foldM1(s, more)) || (foldM1(s, more) == outer(foldM1(s, more)) && more == outer(more) && (pos < outer(pos) || (pos == outer(pos) &&
+//@                    (foldC(s, pos) < outer(foldC(s, pos)) || (foldC(s, pos) == outer(foldC(s, pos)) && left == outer(left) && foldPhi(s, pos) <= outer(foldPhi(s, pos))))))))
+//@   loop 3 decreases s.length - s.pos + (more ? 1 : 0)
+//@   loop 4 invariant wfS(s) && statsOK(s) && aliases(s.input, old(s.input)) && s.length == old(s.length) && s.flags == old(s.flags) &&
+//@                    0 <= left && left <= pos && pos <= 6 && left < 5 && 2 <= pos - left && wfT(lastComment) && 0 <= s.statsFolds && s.statsFolds + pos <= s.statsTokens
+//@   loop 4 invariant (foldM1(s, more) < outer(foldM1(s, more)) || (foldM1(s, more) == outer(foldM1(s, more)) && more == outer(more) && (pos < outer(pos) || (pos == outer(pos) &&
+//@                    (foldC(s, pos) < outer(foldC(s, pos)) || (foldC(s, pos) == outer(foldC(s, pos)) && left == outer(left) && foldPhi(s, pos) <= outer(foldPhi(s, pos))))))))
+//@   loop 4 decreases s.length - s.pos + (more ? 1 : 0)
